@@ -29,19 +29,23 @@ BASES = 'ACGT'
 def gen_vcf(rng, tier):
     nsamp = rng.choice([1, 2, 2, 3, 3, 4])
     samples = ['SA', 'SB', 'S3', 'S-4'][:nsamp]
-    pool = ['chr1', 'chr2', 'chr3', 'chrUn_KI270742v1', 'ERCC-00002', 'KN12', '7_random']
-    contigs = ['chr1'] + rng.sample(pool[1:], rng.randint(0, 3))
+    pool = ['chr1', 'chr2', 'chr3', 'chrUn_KI270742v1', 'ERCC-00002', 'KN12', '7_random', 'chr11', 'chr1_alt', 'chr1_alt']   # names containing each other
+    contigs = ['chr1'] + sorted(set(rng.sample(pool[1:], rng.randint(0, 3))), key=pool.index)
     absent = ['chrAbsent'] + ([rng.choice([c for c in pool if c not in contigs])] if rng.random() < 0.5 else [])
     sites = []
     for c in contigs:
         n = rng.choice([0, 1, 2, 3, 5, 8])
-        positions = sorted(rng.sample(range(1, 60), n))          # 1-based VCF POS, unique per contig
+        # 1-based VCF POS, unique per contig; POS 1 (0-based position 0) and the last base of the contig (1000) are frequent
+        positions = sorted(rng.sample([1, 1, 1000, 1000] + list(range(2, 60)), n + 2))
+        positions = sorted(set(positions))[:n] if n else []
         for pos in positions:
             ref = rng.choice(BASES) if rng.random() < 0.9 else rng.choice(BASES) + rng.choice(BASES)
             nalt = rng.choice([0, 1, 1, 1, 2, 2, 3])
             alts = []
             for _ in range(nalt):
                 a = rng.choice(BASES) if rng.random() < 0.85 else rng.choice(BASES) + rng.choice(BASES)
+                if rng.random() < 0.03:
+                    a = rng.choice(['*', 'N'])          # single-character alleles that are not nucleotides
                 if a != ref and a not in alts:
                     alts.append(a)
             gts = {}
@@ -90,7 +94,9 @@ def gen_vcf(rng, tier):
                     idx[1] = idx[0]
                 gts[s] = {'idx': idx, 'sep': sep}
             sites.append({'c': c, 'pos1': pos, 'ref': ref, 'alts': alts, 'gts': gts})
-    return {'samples': samples, 'contigs': contigs, 'absent': absent, 'sites': sites}
+    return {'samples': samples, 'contigs': contigs, 'absent': absent, 'sites': sites,
+            'fmt': 'GT:DP' if rng.random() < 0.3 else 'GT', 'no_final_newline': rng.random() < 0.15 and bool(sites),
+            'filter': rng.choice(['PASS', 'PASS', '.', 'q10'])}
 
 
 def vcf_text(v):
@@ -98,12 +104,19 @@ def vcf_text(v):
     for c in v['contigs']:
         lines.append('##contig=<ID=%s,length=1000>' % c)
     lines.append('##FORMAT=<ID=GT,Number=1,Type=String,Description="Genotype">')
+    dp = v.get('fmt') == 'GT:DP'
+    if dp:
+        lines.append('##FORMAT=<ID=DP,Number=1,Type=Integer,Description="Depth">')
     lines.append('\t'.join(['#CHROM', 'POS', 'ID', 'REF', 'ALT', 'QUAL', 'FILTER', 'INFO', 'FORMAT'] + v['samples']))
     order = {c: i for i, c in enumerate(v['contigs'])}
     for s in sorted(v['sites'], key=lambda s: (order[s['c']], s['pos1'])):
         gt = [g['sep'].join('.' if i is None else str(i) for i in g['idx']) for g in (s['gts'][x] for x in v['samples'])]
-        lines.append('\t'.join([s['c'], str(s['pos1']), '.', s['ref'], ','.join(s['alts']) or '.', '.', 'PASS', '.', 'GT'] + gt))
-    return '\n'.join(lines) + '\n'
+        if dp:
+            gt = [g + ':%d' % (7 + k) for k, g in enumerate(gt)]
+        lines.append('\t'.join([s['c'], str(s['pos1']), '.', s['ref'], ','.join(s['alts']) or '.', '.',
+                                v.get('filter', 'PASS'), '.', 'GT:DP' if dp else 'GT'] + gt))
+    # a missing final newline is legal input
+    return '\n'.join(lines) + ('' if v.get('no_final_newline') else '\n')
 
 
 def abstract_sites(v):
@@ -144,6 +157,10 @@ def gen_config(rng, v):
     else:
         ign = [[rng.choice(BASES), rng.choice(BASES)] for _ in range(rng.randint(1, 2))]
         ign = [x for x in ign if x[0] != x[1]] or [['A', 'G']]
+    if rng.random() < 0.05:
+        ign = []                 # an empty set of ignored conversions (falsy but valid)
+    if rng.random() < 0.03:
+        sel = []                 # an explicit empty selection: nobody is selected, every answer is "nothing"
     return {'sel': sel, 'ign': ign}
 
 
@@ -170,11 +187,21 @@ def gen_ops(rng, v, n):
         else:
             p = rng.randint(0, 60)
         p = max(0, p)
-        if rng.random() < 0.25:
+        r = rng.random()
+        if r < 0.12:
+            # getAllele(reads): a gap-free read of 3..12 bases starting at or before a site
+            start = max(0, p - rng.randint(0, 3))
+            seq = []
+            for q in range(start, min(start + rng.randint(3, 12), 1000)):
+                site = [s for s in v['sites'] if s['c'] == c and s['pos1'] - 1 == q]
+                cand = [x for x in ([site[0]['ref']] + site[0]['alts'] if site else []) if len(x) == 1 and x in BASES]
+                seq.append(rng.choice(cand) if cand and rng.random() < 0.85 else rng.choice(BASES))
+            ops.append({'op': 'read', 'c': c, 'p': start, 'b': '-', 'seq': seq})
+        elif r < 0.32:
             ops.append({'op': 'has', 'c': c, 'p': p, 'b': '-'})
         else:
             site = [s for s in v['sites'] if s['c'] == c and s['pos1'] - 1 == p]
-            cand = [x for x in ([site[0]['ref']] + site[0]['alts'] if site else []) if len(x) == 1]
+            cand = [x for x in ([site[0]['ref']] + site[0]['alts'] if site else []) if len(x) == 1 and x in BASES]
             b = rng.choice(cand) if cand and rng.random() < 0.8 else rng.choice(BASES)
             ops.append({'op': 'get', 'c': c, 'p': p, 'b': b})
             if rng.random() < 0.3:      # ask the other bases of the same position as well
@@ -214,7 +241,21 @@ def gen_history(rng, v, kind):
     return runs
 
 
-def execute_run(AlleleResolver, vcf_path, run):
+def make_read(contigs, c, start, seq):
+    h = pysam.AlignmentHeader.from_dict({'HD': {'VN': '1.6'}, 'SQ': [{'SN': x, 'LN': 1000} for x in contigs]})
+    a = pysam.AlignedSegment(h)
+    a.query_name = 'r'
+    a.query_sequence = ''.join(seq)
+    a.flag = 0
+    a.reference_id = h.get_tid(c)
+    a.reference_start = start
+    a.mapping_quality = 60
+    a.cigarstring = '%dM' % len(seq)
+    a.query_qualities = pysam.qualitystring_to_array('I' * len(seq))
+    return a
+
+
+def execute_run(AlleleResolver, vcf_path, run, contigs=None):
     kw = {'lazyLoad': run['lazy'], 'use_cache': run['cache'], 'phased': run['phased']}
     if run['sel'] is not None:
         kw['select_samples'] = list(run['sel'])
@@ -233,14 +274,16 @@ def execute_run(AlleleResolver, vcf_path, run):
         for o in run['ops']:
             rec = dict(o)
             try:
-                if o['op'] == 'get':
+                if o['op'] == 'read':
+                    rec['ans'] = sorted(ar.getAllele([make_read(contigs, o['c'], o['p'], o['seq'])]))
+                elif o['op'] == 'get':
                     a = ar.getAllelesAt(o['c'], o['p'], o['b'])
                     rec['ans'] = sorted(a) if a is not None else []
                 else:
                     rec['ans'] = bool(ar.has_location(o['c'], o['p']))
                 rec['raised'] = 'none'
             except Exception as ex:
-                rec['ans'] = [] if o['op'] == 'get' else False
+                rec['ans'] = [] if o['op'] in ('get', 'read') else False
                 rec['raised'] = type(ex).__name__
             out['ops'].append(rec)
     return out
@@ -303,7 +346,19 @@ def main():
                 link = os.path.join(hd, 'v.vcf.gz')
                 os.symlink(gz, link)
                 os.symlink(gz + '.tbi', link + '.tbi')
-                runs = [execute_run(AlleleResolver, link, r) for r in gen_history(rng, v, kind)]
+                if rng.random() < 0.25:
+                    # left-overs of an interrupted earlier run in the cache directory: a garbage temp file, or something
+                    # un-writable (a directory) at the temp path, so that writing the cache fails (swallowed by the code)
+                    cd = link + '_allele_cache'
+                    os.makedirs(cd)
+                    for c in v['contigs'][:2]:
+                        t = os.path.join(cd, c + '.tsv.gz.unfinished')
+                        if rng.random() < 0.5:
+                            with open(t, 'wb') as g:
+                                g.write(b'garbage of an interrupted run')
+                        else:
+                            os.makedirs(t)
+                runs = [execute_run(AlleleResolver, link, r, v['contigs'] + v['absent']) for r in gen_history(rng, v, kind)]
                 hists.append({'kind': kind, 'runs': runs})
             tid += 1
             f.write(json.dumps({'ev': 'vcf', 'tid': tid, 'samples': v['samples'], 'contigs': v['contigs'],
@@ -324,7 +379,7 @@ def main():
             tid += 1
             f.write(json.dumps({'ev': 'vcf', 'tid': tid, 'samples': v['samples'], 'contigs': v['contigs'],
                                 'absent': v['absent'], 'sites': abstract_sites(v),
-                                'hists': [{'kind': 'tlc', 'runs': [execute_run(AlleleResolver, gz, r) for r in runs]}]},
+                                'hists': [{'kind': 'tlc', 'runs': [execute_run(AlleleResolver, gz, r, v['contigs'] + v['absent']) for r in runs]}]},
                                separators=(',', ':')) + '\n')
     if os.path.isdir(work):
         shutil.rmtree(work)
